@@ -397,7 +397,7 @@ fn opname(op: &Op) -> &'static str {
 pub fn run(ctx: &mut Ctx) {
     match ctx.family.as_str() {
         "int" => {
-            let (vals, max) = if ctx.tier_thorough { (vec![1, 2, 3], 8) } else { (vec![1, 2], 5) };
+            let (vals, max) = if ctx.tier_thorough { (vec![1, 2], 13) } else { (vec![1, 2], 10) };
             bfs::<i32>(ctx, "i32", vals, max);
         }
         "item" => {
@@ -407,7 +407,7 @@ pub fn run(ctx: &mut Ctx) {
                 item_of(&Tree::L(vec![])),
                 item_of(&Tree::I(2)),
             ];
-            let (vals, max) = if ctx.tier_thorough { (vals, 5) } else { (vals[..3].to_vec(), 4) };
+            let (vals, max) = if ctx.tier_thorough { (vals, 6) } else { (vals[..3].to_vec(), 5) };
             bfs::<Item>(ctx, "Item", vals, max);
         }
         f => panic!("unknown family {}", f),
